@@ -250,7 +250,9 @@ func Judge(frames []Frame, r Rules) *Verdict {
 					}
 				}
 				if mType == OpText && !utf8.Valid(body) {
-					return bad(i, "bad-utf8")
+					bad(i, "bad-utf8")
+					v.OffMsg = append([]byte{}, body...) // the message as it would be delivered (inflated)
+					return v
 				}
 				if len(body) == 0 {
 					v.EmptyMsgs++
